@@ -2,6 +2,7 @@
 package main
 
 import (
+	"encoding/json"
 	"flag"
 	"fmt"
 	"io"
@@ -14,9 +15,17 @@ func main() {
 	engine := flag.String("engine", "pango", "")
 	hints := flag.Bool("hints", false, "")
 	trace := flag.Bool("trace", false, "print the canonical trace")
+	filesJSON := flag.String("files", "", "JSON object name -> content served under mem://doc/")
 	flag.Parse()
+	files := map[string]string{}
+	if *filesJSON != "" {
+		if err := json.Unmarshal([]byte(*filesJSON), &files); err != nil {
+			fmt.Println(err)
+			return
+		}
+	}
 	b, _ := io.ReadAll(os.Stdin)
-	r, err := wr.Render(wr.Opts{HTML: string(b), Engine: *engine, Hints: *hints})
+	r, err := wr.Render(wr.Opts{HTML: string(b), Engine: *engine, Hints: *hints, Files: files})
 	if err != nil {
 		fmt.Println("error:", err)
 		return
